@@ -2,7 +2,7 @@
 use mos_simrt::std_shim as std;
 use crate::diagnostic_emitter::MosResult;
 use crate::impl_request_handler;
-use crate::lsp::{to_range, LspContext, RequestHandler};
+use crate::lsp::{to_range, uri_to_path, LspContext, RequestHandler};
 use lsp_types::request::{DocumentSymbolRequest, WorkspaceSymbol};
 use lsp_types::{
     DocumentSymbol, DocumentSymbolParams, DocumentSymbolResponse, Location, SymbolInformation,
@@ -26,7 +26,7 @@ impl RequestHandler<DocumentSymbolRequest> for DocumentSymbolRequestHandler {
         params: DocumentSymbolParams,
     ) -> MosResult<Option<DocumentSymbolResponse>> {
         if let Some(tree) = &ctx.tree {
-            let path = params.text_document.uri.to_file_path().unwrap();
+            let path = uri_to_path(&params.text_document.uri);
             if let Some(file) = tree.try_get_file(&path) {
                 if let Some(codegen) = ctx.codegen() {
                     let emitter = DocSymEmitter {
